@@ -188,7 +188,7 @@ func (o setterOp) updateModel(m *MClaims, c psatoken.IClaims) {
 				// a clear: the flag's fate is not specified; follow the object
 				m.NoMeas = nil
 				if p1.NoSwMeasurements != nil {
-					m.NoMeas = u64p(uint64(*p1.NoSwMeasurements))
+					m.NoMeas = u64p(reflect.ValueOf(p1.NoSwMeasurements).Elem().Uint())
 				}
 			}
 		case 2:
